@@ -162,18 +162,20 @@ theorem C09_gate_zip (inflate : Bytes → Nat → Option Bytes) (junk : Bytes) (
 
 theorem C09_gate_bzip2 (blocks : List (BitVec 32 × Bytes)) (sc : BitVec 32) (out : Bytes)
     (h : bzDepack blocks sc = some out) :
-    (∀ b ∈ blocks, b.1 = bzBlockCrc b.2) ∧ out = (blocks.map (·.2)).flatten := by
+    (∀ b ∈ blocks, b.1 = bzBlockCrc b.2) ∧ out = (blocks.map (·.2)).flatten ∧
+      (Crc.Gen.bzStreamCrcDead = false → sc = bzStreamCrc 0 (blocks.map (·.2))) := by
   have := gate_bz 0 [] blocks sc out h
   simpa using this
 
-/-- **Finding (weakness, not a violation of the quantified property):** as the code is, the stored
-    bzip2 *stream* CRC never influences the verdict — `write_bunzip_data` returns `gotcount` (0)
-    at the end-of-stream header, so `decrunch_bzip2` does not reach its `headerCRC == totalCRC`
-    test.  Every block is still gated by its own CRC (`C09_gate_bzip2`), which is what the
-    rejection theorem rests on. -/
-theorem C09_bzip2_stream_crc_unchecked (blocks : List (BitVec 32 × Bytes)) (sc sc' : BitVec 32) :
+/-- **Finding (weakness, not a violation of the quantified property):** in the source as it is
+    (`Gen.bzStreamCrcDead`, regenerated from bunzip2.c on every run), the stored bzip2 *stream* CRC
+    never influences the verdict — `write_bunzip_data` returns `gotcount` (0) at the end-of-stream
+    header, so `decrunch_bzip2` does not reach its `headerCRC == totalCRC` test.  Every block is
+    still gated by its own CRC (`C09_gate_bzip2`), which is what the rejection theorem rests on. -/
+theorem C09_bzip2_stream_crc_unchecked (hd : Crc.Gen.bzStreamCrcDead = true)
+    (blocks : List (BitVec 32 × Bytes)) (sc sc' : BitVec 32) :
     bzDepack blocks sc = bzDepack blocks sc' :=
-  bz_stream_crc_ignored 0 [] blocks sc sc'
+  bz_stream_crc_ignored hd 0 [] blocks sc sc'
 
 theorem C09_gate_xz (hdr bh : Bytes) (chunks : List Bytes) (check : Nat) (index : Bytes) (icrc : Nat)
     (footer out : Bytes) (h : xzAccept hdr bh chunks check index icrc footer = some out) :
@@ -254,7 +256,7 @@ theorem C09_reject_bzip2 (blocks : List (BitVec 32 × Bytes)) (sc : BitVec 32) (
             (∃ b ∈ blocks, b.1 ≠ bzBlockCrc b.2)) :
     bzDepack blocks sc ≠ some out := by
   intro h
-  obtain ⟨h1, _⟩ := C09_gate_bzip2 blocks sc out h
+  obtain ⟨h1, _, _⟩ := C09_gate_bzip2 blocks sc out h
   rcases hbad with ⟨b, hb, orig, ho, hburst⟩ | ⟨b, hb, hne⟩
   · exact C09_bzcrc_detects orig b.2 hburst (ho.symm.trans (h1 b hb))
   · exact hne (h1 b hb)
